@@ -380,7 +380,17 @@ def _build_case(rng, ctx):
     g19 = fg.load_gdb(ctx, key, "hg19")
     depth = 10
     copies = _copies(rng, _structure(rng), depth) if rng.random() < 0.7 else _noisy_copies(rng, depth)
-    reads19 = fg.sample_reads(rng, g19, copies, 2 * depth, error=rng.choice([0.0, 0.0, 0.01]))
+    novel_pair = rng.random() < 0.1
+    if novel_pair:
+        # a copy that carries, outside of their alleles, the catalogued insertion 19_20ins (of *2) and the catalogued
+        # substitution on base 19 (of *12): both have to be reported as additions
+        pair = [(p, op) for (p, op) in g19.mutations if g19.mutations[p, op][3] == 18 and (op[:3] == "ins" or len(op) == 3)]
+        copies = [("1", rng.choice(["1.001", "3.002", "6.001"]), depth), ("1", "1.001", depth)]
+        reads19 = fg.copy_reads(rng, g19, "1", copies[0][1], depth, "c0") + fg.copy_reads(rng, g19, "1", "1.001", depth, "c1", extra=pair)
+        _, ns, ne = fg.NEUTRAL["hg19"]
+        reads19 += fg.filler_reads(rng, ns, ne, 2 * depth, "n")
+    else:
+        reads19 = fg.sample_reads(rng, g19, copies, 2 * depth, error=rng.choice([0.0, 0.0, 0.01]))
     reads38 = fg.mirror_reads(reads19, key)
     name = rng.choice(SAMPLE_NAMES)
     d = case_dir("build")
@@ -400,13 +410,15 @@ def _build_case(rng, ctx):
             args[genome] = (None, None, list(structure))
     params = _params(rng, {"gap": rng.choice([0, 0, 0.1]), "max_minor_solutions": rng.choice([1, 1, 2])})
     params["phase"] = rng.choice([True, False, False])
+    if novel_pair:
+        params["gap"] = 0
     out_name = rng.choice(["out.aldy", None])
     other = {"sam_path": bam19, "profile_name": args["hg19"][0], "cn_region": args["hg19"][1],
              "cn_solution": args["hg19"][2], "genome": "hg19"}
     return {"gene_db": fg.gdb_path(key), "sam_path": bam38, "profile_name": args["hg38"][0],
             "output_file": fg.OutFile(out_name) if out_name else None, "cn_region": args["hg38"][1],
             "cn_solution": args["hg38"][2], "genome": "hg38", "params": params, "other": other,
-            "scenario": f"{route}/{key}/" + _label(copies)}
+            "scenario": f"{route}/{key}/" + _label(copies) + ("+19sub+19ins" if novel_pair else "")}
 
 
 # --------------------------------------------------------------------------- C18  Profile.load
